@@ -343,28 +343,97 @@ def check_k5(chk, m, cfg):
         chk.expect("K5", "string comparisons in %s [%s]" % (name, cfg), n, 1)
 
 
+def effect_sets(m, L):
+    """Per defined function: subset of {T tokenise (writes argc/argv), F find (writes cmd), D dispatch (indirect call through
+    cmd->fn), P prompt reset (clears scratch and resets bufp), G getch} - transitively through module-internal callees."""
+    prog = flow.Program([m])
+    direct = {}
+    for f in m.defined_functions():
+        eff = set()
+        for a in flow.accesses(f, m):
+            if a.struct in ("console", "console_t") and a.writes and a.field:
+                if a.field.startswith("argv") or a.field == "argc":
+                    eff.add("T")
+                if a.field == "cmd":
+                    eff.add("F")
+                if a.kind == "memset" and a.field.startswith("scratch"):
+                    eff.add("P")
+        for c in f.calls():
+            if c.callee is None:
+                ld = c.callee_val.inst
+                if ld is not None and ld.op == "load":
+                    try:
+                        pp = flow.resolve_ptr(ld.ops[0], m)
+                    except AnalysisError:
+                        continue
+                    r = pp.root.inst
+                    if r is not None and r.op == "load":
+                        try:
+                            p2 = flow.resolve_ptr(r.ops[0], m)
+                            if p2.off == L["cmd"][0]:
+                                eff.add("D")
+                        except AnalysisError:
+                            pass
+            elif c.callee in ("console_getch", "ringbuf_get"):
+                eff.add("G")
+        direct[f.name] = eff
+    out = {}
+    for f in m.defined_functions():
+        e = set()
+        for g in prog.closure(f):
+            e |= direct.get(g.name, set())
+        out[f.name] = e
+    return out, direct
+
+
 def check_k6_k7(chk, m, cfg):
     fn = m.fn("console_run")
+    L, _, _, _ = layout(m)
+    eff, direct = effect_sets(m, L)
     segs = paths.enumerate_segments(fn, m)
     n = 0
     for start, p in segs:
-        names = []
+        seq = []        # (effects, description)
         for e in p.events:
-            if e.kind == "call":
-                names.append(e.callee if isinstance(e.callee, str) else "<cmd->fn>")
-        if "find_command" in names or "do_tokenize" in names:
-            n += 1
-            sid = "console_run[%s] %s..%s" % (cfg, start.lstrip("%"), p.end)
-            order = [x for x in names if x in ("do_tokenize", "find_command", "<cmd->fn>", "do_prompt")]
-            ok = order[:3] == ["do_tokenize", "find_command", "<cmd->fn>"]
-            if ok and p.end.startswith("cut"):
-                ok = order[3:4] == ["do_prompt"]
-            chk.ob("K6.dispatch-order", sid, ok, "tokenise -> find -> spawn -> prompt reset; observed %s" % order, p.ret_inst.loc, fn.name)
-        elif "<cmd->fn>" in names and p.end.startswith("cut"):
-            n += 1
-            sid = "console_run[%s] resume %s..%s" % (cfg, start.lstrip("%"), p.end)
-            chk.ob("K6.dispatch-order", sid, names[names.index("<cmd->fn>") + 1:].count("do_prompt") == 1,
-                   "after the command finishes the prompt is reset exactly once", p.ret_inst.loc, fn.name)
+            if e.kind != "call":
+                continue
+            if isinstance(e.callee, str):
+                es = eff.get(e.callee, set()) if m.has_fn(e.callee) else ({"G"} if e.callee in ("console_getch", "ringbuf_get") else set())
+                if es & {"T", "F", "D", "P", "G"}:
+                    seq.append((es & {"T", "F", "D", "P", "G"}, e.callee))
+            else:
+                seq.append(({"D"}, "<cmd->fn>"))
+        disp = [k for k, (es, nm) in enumerate(seq) if "D" in es]
+        if not disp:
+            continue
+        n += 1
+        k0 = disp[0]
+        sid = "console_run[%s] %s..%s" % (cfg, start.lstrip("%"), p.end)
+        before = set().union(*[es for es, nm in seq[:k0]]) if k0 else set()
+        fresh = "G" in before                     # a character was fetched in this segment: a line has just been completed
+        at = seq[k0][0]
+        shown = [nm for es, nm in seq]
+        if fresh:
+            # tokenise -> find -> dispatch, each once, in this order
+            flat = []
+            for es, nm in seq[:k0 + 1]:
+                for x in ("T", "F", "D"):
+                    if x in es:
+                        flat.append(x)
+            ok = flat == ["T", "F", "D"]
+            chk.ob("K6.dispatch-order", sid, ok, "a completed line is tokenised, looked up and dispatched in that order, once each; observed %s"
+                   % shown, p.ret_inst.loc, fn.name)
+        else:
+            ok = not (before & {"T", "F"}) and not (at & {"T", "F"})
+            chk.ob("K6.once-per-line", sid, ok,
+                   "resuming a command that yielded goes straight to cmd->fn%s; observed %s" %
+                   ("" if ok else ": here the line is tokenised / looked up AGAIN on every resumption - the buffer was already split "
+                    "by NULs, so argc collapses to 1, and a command that uses the scratch area is re-dispatched as a different command",
+                    shown), p.ret_inst.loc, fn.name)
+        if p.end.startswith("cut"):
+            after = [es for es, nm in seq[k0 + 1:]]
+            okp = sum(1 for es in after if "P" in es) == 1
+            chk.ob("K6.prompt-after-command", sid, okp, "after the command finishes the prompt is reset exactly once", p.ret_inst.loc, fn.name)
     chk.expect("K6", "dispatch segments [%s]" % cfg, n, 2)
     # K7
     for name, first, then in (("console_putchar", "ringbuf_put", "fibre_run_atomic"), ("console_process", "ringbuf_put", "console_run")):
